@@ -1025,7 +1025,7 @@ func ruleRelaySync(r *Run) {
 			r.CheckT("C6", u.fn.root().Name+":single-consumer", okFn, u.ev.Pos, u.path, "the send queue is drained only by the connection's sending loop (and its shutdown drain)")
 		}
 	}
-	r.Floor("C6", "sends into the send queue", nSend, 1) // send may delegate to sendMsg
+	r.Floor("C6", "sends into the send queue", nSend, 1)    // send may delegate to sendMsg
 	r.Floor("C6", "receives from the send queue", nRecv, 1) // the sending loop's receive (its shutdown drain may live in a helper)
 	// sendMsg: exactly one blocking send of the message handed in; send: encode, then the same
 	for _, q := range []struct {
